@@ -14,8 +14,12 @@ ran = []
 try:
     subprocess.run(["rsync", "-a", "--exclude", ".git", "/repo/", scratch + "/"], check=True)
     r = subprocess.run(["git", "apply", "--whitespace=nowarn", patch], cwd=scratch, capture_output=True, text=True)
-    if r.returncode:   # the tree moved on since the change was written (repairs in /repo): retry with fuzz
-        r = subprocess.run(["patch", "-p1", "-F3", "--no-backup-if-mismatch", "-i", patch], cwd=scratch, capture_output=True, text=True)
+    if r.returncode:   # the tree moved on since the change was written (repairs in /repo): three-way merge in a clone that has the base blobs
+        shutil.rmtree(scratch, ignore_errors=True)
+        subprocess.run(["git", "clone", "-q", "--shared", "/repo", scratch], check=True)
+        r = subprocess.run(["git", "apply", "--3way", "--whitespace=nowarn", patch], cwd=scratch, capture_output=True, text=True)
+        if not r.returncode and subprocess.run(["git", "diff", "--name-only", "--diff-filter=U"], cwd=scratch, capture_output=True, text=True).stdout.strip():
+            r.returncode, r.stderr = 1, "conflicts after three-way merge"
     ran.append(f"git apply patch.diff (scratch copy of /repo HEAD): rc={r.returncode}")
     if r.returncode:
         print("patch does not apply:", r.stderr); sys.exit(1)
